@@ -9,7 +9,9 @@
 (***************************************************************************)
 EXTENDS Instance, Json
 
-CONSTANTS Depth, Masters, StepsOf255
+CONSTANTS Depth, Masters, StepsOf255, Start2, Sibling
+\* Start2: first sequence id of master 2 (65534: straddles 65535 -> 0; 32766: straddles 32767 -> 32768);
+\* Sibling: the environment also delivers Announces of another port of the own instance (same clock identity, port 2)
 VARIABLES st, env, res, hist
 vars == <<st, env, res, hist>>
 
@@ -26,7 +28,7 @@ GmOf(m) == CASE m = 2 -> <<127, 248, 254, 65535, 128, 2>>
              [] m = 4 -> <<100, 248, 254, 65535, 128, 4>>
              [] OTHER -> <<128, 248, 254, 65535, 128, m>>
 StepsOf(m) == IF m = 4 THEN StepsOf255 ELSE 0
-Start(m) == IF m = 2 THEN 65534 ELSE 0
+Start(m) == IF m = 2 THEN Start2 ELSE 0
 Better(m) == GmLess(GmOf(m), OwnAttr(MC_Q0)) /\ StepsOf(m) < 255
 
 W == 5   \* ghost window (epochs)
@@ -49,11 +51,13 @@ AnnEv(m, kind) ==
 Events ==
   {AnnEv(m, "next") : m \in Masters}
   \cup {AnnEv(m, k) : m \in {x \in Masters : env.sent[x]}, k \in {"dup", "stale", "skip"}}
+  \cup (IF Sibling THEN {[e |-> "ann", p |-> 1, src |-> <<Own, 2>>, seq |-> 3, g |-> OwnAttr(MC_Q0), steps |-> 0, kind |-> "sib"]} ELSE {})
   \cup {[e |-> "bmca"], [e |-> "t", k |-> "rcpt", p |-> 1]}
 
 Cap(n) == IF n > 2 THEN 2 ELSE n
 EnvStep(ev) ==
-  IF ev.e = "ann" THEN
+  IF ev.e = "ann" /\ ev.kind = "sib" THEN env
+  ELSE IF ev.e = "ann" THEN
      LET m == ev.src[1]
          cur == env.mseq[m]
          fresh == ev.kind \in {"next", "skip"}
